@@ -229,6 +229,27 @@ pub fn run(a: &Args, out: &mut impl Write) {
         let d = ((r.next() as i64 >> 35) & !4095) as i64;
         entry(out, f, (((f as i64) & !4095) + d) as u64);
     }
+    // ---- Windows / AArch64 allocator (C11): parameters only -- the driver runs the translated function on
+    // a page size and a script of VirtualAlloc answers (0 = NULL): placements at and around the limits of the
+    // window, occupied prefixes, exhaustion
+    {
+        let src = 0x7ff6_0000_1000u64;
+        let lim = 1u64 << 27;
+        for d in [lim, lim - 4, lim - 4096, lim + 4096, 0, 4096] {
+            for sign in [1i64, -1] {
+                let a = (src as i64 + sign * d as i64) as u64;
+                writeln!(out, "winalloc {:x} 1000 {:x} | -", src, a).unwrap();
+                writeln!(out, "winalloc {:x} 1000 0,0,{:x} | -", src, a).unwrap();
+                writeln!(out, "winalloc {:x} 1000 {:x},{:x} | -", src, src + 3 * lim, a).unwrap();
+            }
+        }
+        writeln!(out, "winalloc {:x} 10000 0,0,0,0 | -", 0x10_0000u64).unwrap();
+        for _ in 0..(a.n / 100).max(4) {
+            let k = r.range(1, 5);
+            let ans: Vec<String> = (0..k).map(|_| if r.chance(1, 3) { "0".to_string() } else { format!("{:x}", (src as i64 + ((r.next() as i64) >> 34)) as u64 & !0xfff) }).collect();
+            writeln!(out, "winalloc {:x} 1000 {} | -", src, ans.join(",")).unwrap();
+        }
+    }
     // ---- macOS memory path (C17): parameters only -- the driver runs the translated functions
     for (jit, func, remap, n) in [(0x1_0400_0000u64, 0x1_0000_0f40u64, 0x2_8000_0000u64, 20usize), (0x1_0400_4000, 0x1_0000_3ffc, 0x2_8000_4ffc, 8), (0x7_0000_0000, 0x1_0000_0000, 0x1_0000_0000, 20)] {
         writeln!(out, "macflush {:x} {:x} {:x} {} | -", jit, func, remap, n).unwrap();
